@@ -10,6 +10,8 @@ package main
 import (
 	"bufio"
 	"bytes"
+	"crypto/sha256"
+	"encoding/hex"
 	"encoding/json"
 	"flag"
 	"fmt"
@@ -77,6 +79,7 @@ type corrResult struct {
 	Valid        bool     `json:"valid"`        // the result validates
 	RepPreSame   bool     `json:"rep_pre_same"` // a replica of the correction keeps the correction's preceding rows as they are
 	Business     string   `json:"business"`     // fingerprint of the business content
+	Kept         string   `json:"kept"`         // everything a replica keeps as it is (see kept)
 }
 
 type corrEvent struct {
@@ -94,8 +97,10 @@ type corrEvent struct {
 	SrcStampVals      []string   `json:"src_stamp_vals"`
 	ReqStampVals      []string   `json:"req_stamp_vals"`
 	SrcBusiness       string     `json:"src_business"`
+	SrcKept           string     `json:"src_kept"`
 	SrcHasTax         bool       `json:"src_hastax"`
-	Today             string     `json:"today"`
+	Today             string     `json:"today"`  // the day when the event was set up ...
+	Today2            string     `json:"today2"` // ... and the day when it was written (a run may pass midnight)
 	ReqSeries         string     `json:"req_series"`
 	ReqDate           string     `json:"req_date"`
 	ReqExt            []string   `json:"req_ext"` // keys supplied
@@ -148,6 +153,47 @@ func business(inv *bill.Invoice) string {
 	}
 	fmt.Fprintf(&sb, "|D%d|C%d", len(inv.Discounts), len(inv.Charges))
 	return sb.String()
+}
+
+// kept: the parts of an invoice that replicating does not touch -- everything except the identity and the dates it
+// resets, and except the figures the calculation derives anew (lines, totals, amounts taken as a percentage)
+func kept(inv *bill.Invoice) string {
+	raw, err := json.Marshal(inv)
+	if err != nil {
+		return "unserialisable"
+	}
+	var m map[string]any
+	if json.Unmarshal(raw, &m) != nil {
+		return "unreadable"
+	}
+	for _, k := range []string{"uuid", "code", "issue_date", "value_date", "op_date", "totals", "lines", "discounts", "charges"} {
+		delete(m, k)
+	}
+	var strip func(x any)
+	strip = func(x any) {
+		switch v := x.(type) {
+		case map[string]any:
+			if _, ok := v["percent"]; ok {
+				delete(v, "amount")
+			}
+			for _, e := range v {
+				strip(e)
+			}
+		case []any:
+			for _, e := range v {
+				strip(e)
+			}
+		}
+	}
+	strip(m)
+	b, _ := json.Marshal(m)
+	sum := sha256.Sum256(b)
+	return hex.EncodeToString(sum[:8])
+}
+
+func emitCorr(w *tr.Writer, e corrEvent) {
+	e.Today2 = cal.Today().String()
+	w.Emit(e)
 }
 
 func projectCorr(res *gobl.Envelope, src *gobl.Envelope, srcInv *bill.Invoice) corrResult {
@@ -216,6 +262,7 @@ func projectCorr(res *gobl.Envelope, src *gobl.Envelope, srcInv *bill.Invoice) c
 	}
 	r.Valid = res.Validate() == nil
 	r.Business = business(inv)
+	r.Kept = kept(inv)
 	return r
 }
 
@@ -372,7 +419,6 @@ func corrRun(repo, combosFile string, maxSrc int, bulkBin, goblBin string, cliEv
 		return err
 	}
 	rig := newEnvRig()
-	today := cal.Today().String()
 	type pending struct {
 		ev   corrEvent
 		data []byte
@@ -435,8 +481,8 @@ func corrRun(repo, combosFile string, maxSrc int, bulkBin, goblBin string, cliEv
 			}
 			before, _ := json.Marshal(env)
 			ev := corrEvent{K: "correct", Src: src.name, Path: "lib", Combo: c, Defs: defs, SrcUUID: inv.UUID.String(), SrcType: string(inv.Type),
-				SrcSeries: string(inv.Series), SrcCode: string(inv.Code), SrcDate: inv.IssueDate.String(), SrcStamps: []string{}, SrcBusiness: business(inv),
-				SrcHasTax: inv.Totals != nil && inv.Totals.Taxes != nil, Today: today, ReqExt: []string{}, ReqStamps: []string{}, SrcStampVals: []string{}, ReqStampVals: []string{}, R: corrResult{PreExt: []string{}, TaxExt: []string{}, PreStamps: []string{}, PreStampVals: []string{}}}
+				SrcSeries: string(inv.Series), SrcCode: string(inv.Code), SrcDate: inv.IssueDate.String(), SrcStamps: []string{}, SrcBusiness: business(inv), SrcKept: kept(inv),
+				SrcHasTax: inv.Totals != nil && inv.Totals.Taxes != nil, Today: cal.Today().String(), ReqExt: []string{}, ReqStamps: []string{}, SrcStampVals: []string{}, ReqStampVals: []string{}, R: corrResult{PreExt: []string{}, TaxExt: []string{}, PreStamps: []string{}, PreStampVals: []string{}}}
 			for _, s := range env.Head.Stamps {
 				ev.SrcStamps = append(ev.SrcStamps, string(s.Provider))
 				ev.SrcStampVals = append(ev.SrcStampVals, string(s.Provider)+"="+s.Value)
@@ -516,7 +562,7 @@ func corrRun(repo, combosFile string, maxSrc int, bulkBin, goblBin string, cliEv
 			}()
 			after, _ := json.Marshal(env)
 			lib.SourceIntact = bytes.Equal(before, after)
-			w.Emit(lib)
+			emitCorr(w, lib)
 			// ---- library, the header's own stamps handed over explicitly together with an options object
 			if env.Head != nil && len(env.Head.Stamps) > 0 {
 				ls := ev
@@ -543,7 +589,7 @@ func corrRun(repo, combosFile string, maxSrc int, bulkBin, goblBin string, cliEv
 					b1, _ := json.Marshal(src)
 					ls.SourceIntact = bytes.Equal(b0, b1)
 				}()
-				w.Emit(ls)
+				emitCorr(w, ls)
 			}
 			// ---- library, options given as one complete options value
 			lo := ev
@@ -575,7 +621,7 @@ func corrRun(repo, combosFile string, maxSrc int, bulkBin, goblBin string, cliEv
 				b1, _ := json.Marshal(src)
 				lo.SourceIntact = bytes.Equal(b0, b1)
 			}()
-			w.Emit(lo)
+			emitCorr(w, lo)
 			// ---- library, options given as one JSON object (what the command line and bulk entry points pass on);
 			// afterwards the correction is edited in place: the source must not notice either
 			ld := ev
@@ -606,7 +652,7 @@ func corrRun(repo, combosFile string, maxSrc int, bulkBin, goblBin string, cliEv
 				b1, _ := json.Marshal(src)
 				ld.SourceIntact = bytes.Equal(b0, b1)
 			}()
-			w.Emit(ld)
+			emitCorr(w, ld)
 			// ---- replicate (once per source state)
 			if c.Type == "credit-note" && !c.Reason && !c.Ext && !c.Stamps && !c.Series && !c.Date && !c.CopyTax {
 				rep := ev
@@ -627,7 +673,7 @@ func corrRun(repo, combosFile string, maxSrc int, bulkBin, goblBin string, cliEv
 				}()
 				after2, _ := json.Marshal(env)
 				rep.SourceIntact = bytes.Equal(before, after2)
-				w.Emit(rep)
+				emitCorr(w, rep)
 			}
 			// ---- other entry points work on the serialised source
 			b := ev
@@ -692,7 +738,7 @@ func corrRun(repo, combosFile string, maxSrc int, bulkBin, goblBin string, cliEv
 				ev.Panic = true
 			}
 			ev.SourceIntact = true // the source only exists as bytes on this path
-			w.Emit(ev)
+			emitCorr(w, ev)
 			// ---- gobl correct (sampled)
 			if goblBin != "" && cliEvery > 0 && i%cliEvery == 0 {
 				cev := p.ev
@@ -721,7 +767,7 @@ func corrRun(repo, combosFile string, maxSrc int, bulkBin, goblBin string, cliEv
 					return fmt.Errorf("gobl correct: %w", err)
 				}
 				cev.SourceIntact = true
-				w.Emit(cev)
+				emitCorr(w, cev)
 			}
 		}
 	}
